@@ -463,7 +463,9 @@ class CellConversion:
             else:
                 new_cell.fillid = universe
             if new_cell.filltr:
-                new_filltr = compose_transform(trnsf, new_cell.filltr)
+                # the filling universe is placed in the base cell by the fill
+                # transformation, then moved to this element of the lattice
+                new_filltr = compose_transform(new_cell.filltr, trnsf)
             else:
                 new_filltr = tuple(trnsf)
             # see self.pot_fill(): if TRCL and FILL with a transformation are
